@@ -1559,9 +1559,17 @@ class GeoboxTiles:
         xy_chunks_with_data = list(self.tiles(src_footprint))
         deps: Dict[Tuple[int, int], List[Tuple[int, int]]] = {}
 
+        # One source pixel of slack around every tile: warp is allowed to be a
+        # fraction of a source pixel off (approximate transformer), tiles that
+        # are only just outside of the exact footprint still get sampled.
+        src_crs = src.base.crs
+        pad = max(abs(src.base.resolution.x), abs(src.base.resolution.y))
+
         for idx in xy_chunks_with_data:
-            geobox = self[idx]
-            deps[idx] = list(src.tiles(geobox.extent))
+            query = self[idx].extent
+            if src_crs is not None and query.crs != src_crs:
+                query = query.to_crs(src_crs, resolution="auto", check_and_fix=True)
+            deps[idx] = list(src.tiles(query.buffer(pad)))
 
         return deps
 
